@@ -686,6 +686,11 @@ func genResultCase(t *rapid.T) resultCase {
 	c.Err = genErr(false).Draw(t, "err")
 	// the verdict is an input of the rendering; a result carrying an error is always a failed one (run.Result.Failed)
 	c.Failed = rapid.Bool().Draw(t, "failed") || c.Err.Kind != "nil"
+	if c.Err.Kind != "nil" && rapid.IntRange(0, 5).Draw(t, "errorWithoutFailedVerdict") == 0 {
+		// the verdict is an input of its own: data carrying an error with Failed == false must still be
+		// rendered consistently (banner and log level follow the verdict, in both forms)
+		c.Failed = false
+	}
 	c.Path = genText().Draw(t, "path")
 	c.SDur = genSnap(c.S).Draw(t, "sdur")
 	c.FDur = genSnap(c.F).Draw(t, "fdur")
